@@ -143,6 +143,25 @@ def gen_redundant(rnd):
     return {'nodes': nodes, 'edges': edges, 'flags': 2 | (8 if rnd.random() < 0.2 else 0) | (32 if rnd.random() < 0.6 else 0), 'cons': cons, 'groups': [], 'clusters': []}
 
 
+def gen_double_conflict(rnd):
+    """two (or three) separations of one ordered pair with different gaps, all in conflict with an alignment or an equality that holds the
+    pair closer together (sometimes one of them satisfiable): each unsatisfiable constraint has to be reported on its own"""
+    n = rnd.randint(2, 4)
+    nodes = [(2 * rnd.randint(2, 8), 2 * rnd.randint(2, 8), rnd.randint(0, 150), rnd.randint(0, 150)) for _ in range(n)]
+    edges = sorted({(min(a, b), max(a, b)) for a, b in (rnd.sample(range(n), 2) for _ in range(rnd.randint(0, n)))})
+    dim = rnd.randint(0, 1)
+    a, b = rnd.sample(range(n), 2)
+    hold = rnd.choice([0, 10, 20])
+    cons = [[2, dim, 2, a, 0, b, hold, 0, 0]] if rnd.random() < 0.6 else [[1, dim, a, b, hold, 1]]
+    for g in rnd.sample([hold - 10, hold + 15, hold + 30, hold + 60, hold + 80], rnd.randint(2, 3)):
+        cons.append([1, dim, a, b, g, 0])
+    if n > 2 and rnd.random() < 0.5:
+        l, r = rnd.sample(range(n), 2)
+        cons.append([1, rnd.randint(0, 1), l, r, rnd.choice([0, 10, 25]), 0])
+    rnd.shuffle(cons)
+    return {'nodes': nodes, 'edges': edges, 'flags': (2 if rnd.random() < 0.6 else 0) | (8 if rnd.random() < 0.2 else 0) | (4 if rnd.random() < 0.15 else 0), 'cons': cons, 'groups': [], 'clusters': []}
+
+
 def write_cases(path, cases):
     with open(path, 'w') as f:
         for c in cases:
